@@ -49,7 +49,10 @@ def corrupt(rng, text, fmt):
     if lines and lines[-1] == "":
         lines.pop()
     data_idx = [i for i, l in enumerate(lines) if l.strip() and not l.startswith("#")]
-    kind = rng.choice(["drop-column", "bad-strand", "non-numeric", "reversed", "blank-and-comment", "field-count", "gap-first", "duplicate-line", "swap-lines"])
+    kind = rng.choice(["drop-column", "bad-strand", "non-numeric", "reversed", "blank-and-comment", "field-count", "gap-first", "duplicate-line", "swap-lines", "no-final-newline"])
+    if kind == "no-final-newline":
+        # a benign variant: the last line of the file is not terminated
+        return "\n".join(lines), kind
     if not data_idx:
         kind = "blank-and-comment"
     i = rng.choice(data_idx) if data_idx else 0
